@@ -141,6 +141,7 @@ func seqCases(prop, tier string, seed uint64) []Case {
 		if i%5 == 4 && prop != "C07" {
 			p.Reopen = 1 + r.Intn(4)
 		}
+
 		if i%48 == 47 && prop != "C07" && prop != "C01" {
 			// long histories over many names: wide directories (dozens of children), tapes of hundreds of records
 			p.Steps = st * 5
@@ -149,7 +150,7 @@ func seqCases(prop, tier string, seed uint64) []Case {
 			}
 			p.Comps = append(p.Comps, "a", "ab", "a_", "a%")
 		} else if prop == "C12" {
-			p.Comps = []string{"a", "ab", "a_", "a%", "a b", "a.b", "ä", "aä", "%", "_", "[ab]", "a[", "a*", "a?", ".a", "A", "AB", "A_"}
+			p.Comps = []string{"a", "ab", "a_", "a%", "a b", "a.b", "ä", "aä", "%", "_", "[ab]", "a[", "a*", "a?", ".a", "A", "AB", "A_", "x.gz", "y.zst", "z.age", "w.pgp", "v.lz4", "u.bz2", "t.br"}
 		}
 		pb, _ := json.Marshal(p)
 		cases = append(cases, Case{ID: fmt.Sprintf("%s-h%04d", strings.ToLower(prop), i), Seed: subSeed(seed, prop, tier, fmt.Sprint(i)), Kind: "random", P: pb})
@@ -833,7 +834,9 @@ func seqRun(prop, tier string, c Case, w *Worker) (res Result) {
 			res.Verdict, res.Msg = "inconclusive", err.Error()
 			return
 		}
-		h.kind = "rooted"
+		if p.Witness == "" {
+			h.kind = "rooted"
+		}
 		res.setAdd("roots", p.RootFmt+" "+p.Root)
 	}
 	if err := rig.Init(); err != nil {
@@ -1017,7 +1020,7 @@ func seqRun(prop, tier string, c Case, w *Worker) (res Result) {
 	}
 	res.NonTrivial = succMut >= 3 && nrec >= 4
 	res.Key = sum([]byte(strings.Join(opNames(h.ops), "\n") + cfg.String()))
-	if res.Verdict == "" {
+	if res.Verdict == "" && os.Getenv("VERIF_KEEP_DETAIL") == "" {
 		res.Detail = nil
 	}
 	res.Sample = map[string]any{"cfg": cfg.String(), "ops": opNames(h.ops), "tape_records": nrec}
